@@ -422,7 +422,62 @@ def extract_isolation(E):
     E.t.append("/-- functions cached with the stdlib `functools.lru_cache`/`cache` directly (not reset between runs) -/\ndef unresettableCaches : List String := %s" % lean_strlist(bad))
 
 
-EXTRACTORS = [extract_cost, extract_scheduler, extract_api_phases, extract_isolation]
+def _dict_keys_returned(func):
+    """string keys of the dict literals built in a get_state (returned dict, `state.update({...})`, nested one level)"""
+    keys = []
+    for n in ast.walk(func):
+        if isinstance(n, ast.Dict):
+            for k in n.keys:
+                if isinstance(k, ast.Constant) and isinstance(k.value, str):
+                    keys.append(k.value)
+    return keys
+
+
+def _state_keys_read(func):
+    """keys a set_state reads: state["k"], state.get("k"), value["k"], r["k"]"""
+    keys = []
+    for n in ast.walk(func):
+        if isinstance(n, ast.Subscript) and isinstance(n.slice, ast.Constant) and isinstance(n.slice.value, str):
+            keys.append(n.slice.value)
+        if isinstance(n, ast.Call) and isinstance(n.func, ast.Attribute) and n.func.attr == "get" and n.args and isinstance(n.args[0], ast.Constant) and isinstance(n.args[0].value, str):
+            keys.append(n.args[0].value)
+    return keys
+
+
+def extract_persist(E):
+    """which fields each persistable object writes in get_state AND reads back in set_state (C14)"""
+    spec = [("Position", "rqalpha/portfolio/position.py", "Position"), ("StockPosition", "rqalpha/mod/rqalpha_mod_sys_accounts/position_model.py", "StockPosition"),
+            ("Account", "rqalpha/portfolio/account.py", "Account"), ("Portfolio", "rqalpha/portfolio/__init__.py", "Portfolio"), ("Executor", "rqalpha/core/executor.py", "Executor")]
+    rows = []
+    for name, rel, clsname in spec:
+        tree, src = parse(rel)
+        cls = find_class(tree, clsname)
+        g = find_func(cls, "get_state") if cls is not None else None
+        st = find_func(cls, "set_state") if cls is not None else None
+        saved = _dict_keys_returned(g) if g is not None else []
+        read = _state_keys_read(st) if st is not None else []
+        both = [k for k in dict.fromkeys(saved) if k in read]
+        rows.append((name, both))
+        if cls is not None and g is not None:
+            E.fp[name + ".get_state"] = fingerprint(g)
+    E.t.append("/-- per persistable class: the keys written by `get_state` that `set_state` reads back -/\ndef persistedKeys : List (String × List String) := [\n" +
+               ",\n".join('  ("%s", %s)' % (n, lean_strlist(ks)) for n, ks in rows) + "]")
+    # PersistHelper.persist: skips a store only when the state equals the LAST stored state of that key
+    tree, src = parse("rqalpha/utils/persisit_helper.py")
+    cls = find_class(tree, "PersistHelper")
+    f = find_func(cls, "persist") if cls is not None else None
+    last_eq = False
+    if f is not None:
+        for n in ast.walk(f):
+            if isinstance(n, ast.Compare) and len(n.ops) == 1 and isinstance(n.ops[0], ast.Eq):
+                txt = ast.get_source_segment(src, n) or ""
+                if "_last_state.get(key)" in txt and "md5" in txt:
+                    last_eq = True
+        E.fp["PersistHelper.persist"] = fingerprint(f)
+    E.t.append("/-- `PersistHelper.persist` skips storing exactly when the digest equals the digest of the last stored state of the same key -/\ndef persistSkipsOnLastEqual : Bool := %s" % str(last_eq).lower())
+
+
+EXTRACTORS = [extract_cost, extract_scheduler, extract_api_phases, extract_isolation, extract_persist]
 
 
 def write_if_changed(path, text):
